@@ -30,10 +30,22 @@ func c11Concurrent(t *rapid.T) {
 			b := []byte("REDIS0009")
 			b = append(b, gen.OpSelectDB, 0)
 			for k := rapid.IntRange(2, 5).Draw(t, "bigkeys"); k > 0; k-- {
-				size := rapid.SampledFrom([]int{64 << 10, 512 << 10, 2 << 20}).Draw(t, "bigsize")
-				b = append(b, gen.TString)
+				size := rapid.SampledFrom([]int{64 << 10, 512 << 10, 1<<20 - 3, 1 << 20, 2 << 20}).Draw(t, "bigsize")
+				// values of every container type, not only strings (whose type byte is 0)
+				typ := rapid.SampledFrom([]byte{gen.TString, gen.TList, gen.TSet, gen.THash}).Draw(t, "bigtype")
+				b = append(b, typ)
 				b = gen.AppendRawString(b, []byte(fmt.Sprintf("big:%d", k)))
-				b = gen.AppendRawString(b, patBytes(uint32(k), size))
+				switch typ {
+				case gen.TString:
+					b = gen.AppendRawString(b, patBytes(uint32(k), size))
+				case gen.THash:
+					b = gen.AppendLen(b, 1, 0)
+					b = gen.AppendRawString(b, []byte("field"))
+					b = gen.AppendRawString(b, patBytes(uint32(k), size))
+				default:
+					b = gen.AppendLen(b, 1, 0)
+					b = gen.AppendRawString(b, patBytes(uint32(k), size))
+				}
 			}
 			b = append(b, gen.OpEOF)
 			files[i] = appendCRC(b)
